@@ -151,3 +151,61 @@ Example C08_example_reports :
   [ {| r_code := CS0005; r_primary := [(10, 23, 0)%N]; r_secondary := [(25, 40, 0)%N] |};
     {| r_code := CS0013; r_primary := [(42, 50, 0)%N]; r_secondary := [] |} ].
 Proof. vm_compute. reflexivity. Qed.
+
+(* ---- the `<--` statements of the graph are those of the source ----
+   Model.LiftFull mirrors try_lift_impl (renaming, AST -> IR lifting with metas,
+   block construction) on the real syntax tree Model.Ast and is compared with the
+   real `into_cfg` on every run (engine `liftfull`, run by C13's check);
+   [lift_to_ir] is that mirror followed by the erasure onto Model.Ir.
+   [source_signal_assignments body]: the `<--` / `-->` statements of the body
+   (Substitution with AssignSignal), in source order.  The AssignSignal
+   substitutions of the lifted graph, in block order, are exactly their images:
+   same number, same order, same metas - none lost, none duplicated, none
+   invented. *)
+Require Model.Ast Model.LiftFull Proofs.LiftFullC08.
+
+Theorem C08_liftfull_signal_assignments_from_source : forall kind params pfile ploc body c,
+  Model.LiftFull.lift_to_ir kind params pfile ploc body = Ok c ->
+  map stmt_meta (assign_stmts c)
+  = map (fun s => Proofs.LiftFullC08.ir_meta (Model.Ast.stmt_meta s)) (Proofs.LiftFullC08.source_signal_assignments body).
+Proof. exact Proofs.LiftFullC08.signal_assignments_from_source. Qed.
+Print Assumptions C08_liftfull_signal_assignments_from_source.
+
+Theorem C08_liftfull_signal_assignment_count : forall kind params pfile ploc body c,
+  Model.LiftFull.lift_to_ir kind params pfile ploc body = Ok c ->
+  length (assign_stmts c) = length (Proofs.LiftFullC08.source_signal_assignments body).
+Proof. exact Proofs.LiftFullC08.signal_assignment_count. Qed.
+Print Assumptions C08_liftfull_signal_assignment_count.
+
+(* so distinct source locations give distinct keys: the hypothesis
+   [subkeys_distinct] (which implies [keys_distinct], C08_subkeys_distinct_suffice)
+   holds of the lifted graph whenever no two `<--` statements of the source have
+   the same meta.  (The graph here is the one BEFORE SSA; that SSA keeps the
+   substitutions' metas is C04_ssa_blocks_from_input, that it keeps their
+   operators is observed by the dump comparison of the `ir` engine.) *)
+Theorem C08_liftfull_distinct_sources_distinct_subkeys : forall kind params pfile ploc body c,
+  Model.LiftFull.lift_to_ir kind params pfile ploc body = Ok c ->
+  NoDup (map Model.Ast.stmt_meta (Proofs.LiftFullC08.source_signal_assignments body)) ->
+  subkeys_distinct c.
+Proof. exact Proofs.LiftFullC08.distinct_sources_distinct_subkeys. Qed.
+Print Assumptions C08_liftfull_distinct_sources_distinct_subkeys.
+
+(* `template T() { signal input a; signal output b; signal c; b <-- a; c <== a; c --> b; }`
+   (declarations omitted from the body): two AssignSignal statements, at 10..17 and 27..34 *)
+From Coq Require Import String.
+Example C08_example_liftfull :
+  let m a b := Model.Ast.Meta a b (Some 0%N) in
+  let va := Model.Ast.Variable_ (m 1 2)%N "a"%string [] in
+  let body := Model.Ast.Block (m 0 40)%N
+    [Model.Ast.Substitution (m 10 17)%N "b"%string [] Model.Ast.AssignSignal va;
+     Model.Ast.Substitution (m 18 26)%N "c"%string [] Model.Ast.AssignConstraintSignal va;
+     Model.Ast.Substitution (m 27 34)%N "b"%string [] Model.Ast.AssignSignal (Model.Ast.Variable_ (m 27 28)%N "c"%string [])] in
+  match Model.LiftFull.lift_to_ir KTemplate [] (Some 0%N) (0%N, 0%N) body with
+  | Ok c => map stmt_meta (assign_stmts c)
+  | _ => []
+  end = [ex_m 10 17; ex_m 27 34]
+  /\ NoDup (map Model.Ast.stmt_meta (Proofs.LiftFullC08.source_signal_assignments body)).
+Proof.
+  split; [vm_compute; reflexivity|].
+  vm_compute. repeat constructor; simpl; intuition discriminate.
+Qed.
